@@ -180,6 +180,11 @@ pub struct TablePlan {
     /// this byte offset (a multiple of the default BufReader capacity)
     #[serde(default)]
     pub straddle: Option<usize>,
+    /// reference family: the text becomes `{name} <op> ( text )`. References are outside what the
+    /// reference model speaks about, so such runs are judged only by T7/T8 (identical stdout across
+    /// channels and repetition counts) and by their exit status.
+    #[serde(default)]
+    pub ref_prefix: Option<(String, String)>,
 }
 
 const FILTER_SPELLINGS: [&[&str]; 3] = [
@@ -355,6 +360,24 @@ pub fn gen_table_plan(rng: &mut Prng, property: &str, thorough: bool) -> TablePl
         None
     };
     let straddle = if !c11 && wide.is_none() && rng.chance(1, 6) { Some(8192 * rng.range(1, 2)) } else { None };
+    fn fix_names(f: &F, out: &mut Vec<String>) {
+        if let F::Fix(_, n, _) = f {
+            out.push(n.clone());
+        }
+        for c in f.children() {
+            fix_names(c, out);
+        }
+    }
+    let ref_prefix = match &formula {
+        Some(f) if !c11 && rng.chance(1, 8) => {
+            let mut fx = Vec::new();
+            fix_names(f, &mut fx);
+            let name = if !fx.is_empty() && rng.chance(3, 4) { rng.pick(&fx).clone() } else { rng.pick(&["X", "r1", "a"]).to_string() };
+            variants.push(Variant::Repeat(rng.range(2, 4)));
+            Some((name, rng.pick(&["^", "|", "&", "<=>", "=>"]).to_string()))
+        }
+        _ => None,
+    };
     TablePlan {
         property: property.to_string(),
         formula,
@@ -375,6 +398,7 @@ pub fn gen_table_plan(rng: &mut Prng, property: &str, thorough: bool) -> TablePl
         compare_default_order: c11 && rng.chance(1, 2),
         api_ids,
         straddle,
+        ref_prefix,
     }
 }
 
@@ -539,6 +563,9 @@ fn model_of(p: &TablePlan) -> Result<Model, String> {
     let f = p.formula.as_ref().ok_or("plan without formula")?;
     let mut prng = Prng::new(p.print_seed);
     let mut text = Printer::noisy(&mut prng, p.noise).print(f);
+    if let Some((name, op)) = &p.ref_prefix {
+        text = format!("{{{name}}} {op} ( {text} )");
+    }
     if let Some(at) = p.straddle {
         // leading comment of exactly the length that puts the first non-ASCII character's first
         // byte at offset at-1 (so the character straddles a read-buffer boundary)
@@ -743,7 +770,10 @@ pub fn execute_table(p: &TablePlan) -> RunOutcome {
                         vs.push(viol(pr, or, "export-ordering", format!("-r printed {:?}, expected {:?}", parsed.ordering, want)));
                     }
                 }
-                if let Some(w) = &p.wide {
+                if p.ref_prefix.is_some() {
+                    bump(&mut stats, "probe.reference_family");
+                    out.nontrivial = true;
+                } else if let Some(w) = &p.wide {
                     judge_wide(p, w, &parsed, &mut vs);
                 } else if let Some(func) = &model.func {
                     let header: Vec<String> = order.iter().filter(|n| model.free.contains(n)).cloned().collect();
@@ -1030,7 +1060,7 @@ pub fn minimise_table(plan: &TablePlan, v: &Violation) -> (TablePlan, Violation)
         }
     };
     // options first
-    for k in 0..13 {
+    for k in 0..14 {
         let mut c = best.clone();
         match k {
             0 => c.noise = 0,
@@ -1039,6 +1069,7 @@ pub fn minimise_table(plan: &TablePlan, v: &Violation) -> (TablePlan, Violation)
             3 => c.compare_default_order = false,
             4 => c.api_ids = None,
             12 => c.straddle = None,
+            13 => c.ref_prefix = None,
             5 => c.ordering = None,
             6 => c.b = None,
             7 => c.r = false,
